@@ -160,7 +160,8 @@ impl Sys {
         let mut whole = vec![];
         r.write_all(&mut whole).map_err(|e| ("write-failed".to_string(), format!("write_all into a Vec failed: {}", e)))?;
         // same bytes however the sink splits the writes
-        let mut patterns: Vec<Vec<usize>> = vec![vec![1], vec![2], vec![3], vec![7], vec![64]];
+        // (0 = this write call is interrupted: Err(ErrorKind::Interrupted), nothing accepted)
+        let mut patterns: Vec<Vec<usize>> = vec![vec![1], vec![2], vec![3], vec![7], vec![64], vec![1, 0], vec![0, 1], vec![2, 0, 0], vec![64, 0], vec![0, 0, 7], vec![3, 0, 1000]];
         let mut k = key;
         for _ in 0..6 {
             let mut p = vec![];
@@ -250,6 +251,9 @@ impl Write for ChunkSink {
     fn write(&mut self, buf: &[u8]) -> std::io::Result<usize> {
         let n = self.pattern[self.i % self.pattern.len()].min(buf.len());
         self.i += 1;
+        if self.pattern[(self.i - 1) % self.pattern.len()] == 0 {
+            return Err(std::io::Error::from(std::io::ErrorKind::Interrupted));
+        }
         self.out.extend_from_slice(&buf[..n]);
         Ok(n)
     }
@@ -374,7 +378,7 @@ pub fn run(thorough: bool) -> Vec<Part> {
         return vec![];
     }
     let mut part = Part::new("C05", "builder-states-r", "model_checking");
-    part.assume("breadth-first search over Response builder states: 2 versions x 11 status codes x all call sequences of length <= N (N = 4 quick, 5 thorough) over set_body (6 bodies: empty, 1 byte, contains CRLFCRLF, looks like a response, NUL/0xFF/CRLF bytes, large), set_content_type x2, set_deprecation, set_encoding, set_server x3 (one of 280 bytes), set_allow x4 (one with 40 methods), allow_method x3, de-duplicated on the pair (Debug rendering of the Response, reference model state); a sweep over body lengths (every length 0..4200 plus boundaries up to 64 KiB quick; every length 0..65536 thorough); every state is serialized into sinks accepting 1, 2, 3, 7, 64 bytes per write and 6 mixed patterns and re-read by an independent response reader, alone and followed by other bytes");
+    part.assume("breadth-first search over Response builder states: 2 versions x 11 status codes x all call sequences of length <= N (N = 4 quick, 5 thorough) over set_body (6 bodies: empty, 1 byte, contains CRLFCRLF, looks like a response, NUL/0xFF/CRLF bytes, large), set_content_type x2, set_deprecation, set_encoding, set_server x3 (one of 280 bytes), set_allow x4 (one with 40 methods), allow_method x3, de-duplicated on the pair (Debug rendering of the Response, reference model state); a sweep over body lengths (every length 0..4200 plus boundaries up to 64 KiB quick; every length 0..65536 thorough); every state is serialized into sinks accepting 1, 2, 3, 7, 64 bytes per write, 6 mixed patterns and 6 patterns with interrupted writes (EINTR) between short ones and re-read by an independent response reader, alone and followed by other bytes");
     part.assume("the default Content-Type and Server values are not judged (the statement names the lines, not their defaults); set_content_length is exercised only by the 'unless explicitly set' side check; header text containing CR/LF passed to set_server is outside the property");
     let sys = Sys { bodies: bodies(if thorough { 65536 } else { 9000 }), max_calls: if thorough { 5 } else { 4 } };
     let limits = Limits { max_states: 12_000_000, max_secs: if thorough { 3000.0 } else { 100.0 }, ..Default::default() };
@@ -451,7 +455,7 @@ pub fn run(thorough: bool) -> Vec<Part> {
                     r.write_all(&mut b).unwrap();
                     if n % 64 == 0 || (n % 4096) < 3 || (n % 4096) > 4093 {
                         // same bytes through a sink that accepts 1000 bytes per write
-                        let mut sink = ChunkSink { out: vec![], pattern: vec![1000], i: 0 };
+                        let mut sink = ChunkSink { out: vec![], pattern: if n % 2 == 0 { vec![1000] } else { vec![1000, 0, 50] }, i: 0 };
                         r.write_all(&mut sink).unwrap();
                         if sink.out != b {
                             t.violate("sink-dependent-bytes", format!("a {}-byte body written into a sink accepting 1000 bytes per write gives {} bytes, {} into a Vec", n, sink.out.len(), b.len()), json!({"engine": "c05len", "len": n}));
